@@ -1,11 +1,13 @@
 import LuaHelper.Model.Parser
 import LuaHelper.Model.Pat
+import LuaHelper.Spec.Pat
 import LuaHelper.Driver.Proto
 import LuaHelper.Driver.LexOps
 namespace LuaHelper.PatOps
 open LuaHelper.Lex LuaHelper.Ast LuaHelper.Parse LuaHelper.Proto LuaHelper.Pat
 
-/-- `pat <srchex> <conv>` → reports as "ty@sl:sc:el:ec" (0-based lines as the client sees them) -/
+/-- `pat <srchex> <conv>` → model reports as "ty@sl:sc:el:ec" (0-based lines as the client sees them), then
+    " | " and the type-14 / type-5 reports of the specification Spec/Pat.lean -/
 def handle (cmd : String) (args : List String) : Option String :=
   match cmd, args with
   | "pat", [h, conv] =>
@@ -15,6 +17,7 @@ def handle (cmd : String) (args : List String) : Option String :=
       let r := parseChunk src (LexOps.parseConv conv)
       if r.errs.size > 0 then some s!"ERR{r.errs.size}" else
       let reps := reports r.block
-      some ("OK " ++ ";".intercalate (reps.map fun x => s!"{x.ty}@{x.loc.sl - 1}:{x.loc.sc}:{x.loc.el - 1}:{x.loc.ec}"))
+      let sh := fun (x : Rep) => s!"{x.ty}@{x.loc.sl - 1}:{x.loc.sc}:{x.loc.el - 1}:{x.loc.ec}"
+      some ("OK " ++ ";".intercalate (reps.map sh) ++ " | " ++ ";".intercalate ((PatSpec.reports r.block).map sh))
   | _, _ => none
 end LuaHelper.PatOps
